@@ -5,7 +5,7 @@ You may use these items to build a tree representing a query,
 or get a tree as the result of parsing a query string.
 """
 import re
-from decimal import Context, Decimal
+from decimal import MAX_EMAX, MIN_EMIN, Context, Decimal
 
 _MARKER = object()
 
@@ -14,7 +14,9 @@ def _normalize_number(value):
     """Normalize a Decimal without rounding it to the precision of the current decimal context
     """
     value = Decimal(value)
-    return value.normalize(Context(prec=max(len(value.as_tuple().digits), 1)))
+    # no bound on the exponent either: a numeral of a million digits is neither an overflow nor zero
+    context = Context(prec=max(len(value.as_tuple().digits), 1), Emax=MAX_EMAX, Emin=MIN_EMIN)
+    return value.normalize(context)
 
 
 def _number_to_str(value):
